@@ -19,6 +19,12 @@ func rulesC15Round2(c *Ctx) {
 	// SetDebondingDelegation merges the record it is given with the one already stored under the same end epoch. A
 	// caller that starts from the stored record counts the earlier reclaim twice: the record then holds more shares than
 	// were added to the debonding pool for it and its owner is paid out of the other debonders' stake.
+	freshDebondingRecordRule(c)
+}
+
+// freshDebondingRecordRule: see the comment in rulesC15Round2 (shared with C05: a record counted twice breaks the
+// share sums of the debonding pool).
+func freshDebondingRecordRule(c *Ctx) {
 	for _, fn := range c.P.ModFuncs {
 		if fn.Blocks == nil || !strings.HasPrefix(short(fpkgPath(fn)), "consensus/cometbft/apps/staking") {
 			continue
